@@ -2,9 +2,11 @@
 #![allow(unused)]
 #![feature(allocator_api)]
 use vstd::prelude::*;
+use vstd::std_specs::iter::IteratorSpec;
 use std::collections::HashMap;
 verus! {
 //@ include ../_common/bytes_prelude.rs
+//@ include ../_common/bytechain_prelude.rs
 // R10: HashMap::get_mut has no vstd specification; extracted `E.get_mut(&k)` calls this wrapper.
 #[verifier::external_body]
 pub fn vx_hashmap_get_mut<'a, V>(m: &'a mut HashMap<u32, V>, k: &u32) -> (r: Option<&'a mut V>)
@@ -16,6 +18,7 @@ pub fn vx_hashmap_get_mut<'a, V>(m: &'a mut HashMap<u32, V>, k: &u32) -> (r: Opt
 { m.get_mut(k) }
 
 //@ default-tags C16
+//@ verus-flags --no-lifetime --rlimit 120
 // HashMap::retain (no vstd specification): keeps a subset of the entries, values unchanged
 pub assume_specification<K, V, S, A: core::alloc::Allocator, F: FnMut(&K, &mut V) -> bool> [HashMap::<K, V, S, A>::retain] (m: &mut HashMap<K, V, S, A>, f: F)
     ensures forall|k: K| #[trigger] final(m)@.contains_key(k) ==> old(m)@.contains_key(k);
@@ -51,8 +54,87 @@ impl vstd::std_specs::convert::TryFromSpecImpl<u8> for Command {
 //@ extract hid struct Message
 //@ extract hid enum ExtensionError
 //@ extract hid enum CreationError
+// ---- the byte sink of the sender (trusted model of std::io::Write for a packet device): one `write` = one packet
+pub struct IoError;
+pub trait VxWrite {
+    spec fn written(&self) -> Seq<Seq<u8>>;
+    fn write(&mut self, buf: &[u8]) -> (r: Result<usize, IoError>)
+        ensures match r { Ok(_) => final(self).written() == old(self).written().push(buf@), Err(_) => final(self).written() == old(self).written() };
+    fn flush(&mut self) -> (r: Result<(), IoError>) ensures final(self).written() == old(self).written();
+}
+// a 64-byte buffer that carries an initialisation / continuation header, its data and zeros after it is that packet of the layout
+pub proof fn lemma_init_buf(buf: Seq<u8>, ch: u32, c: Command, p: Seq<u8>)
+    requires buf.len() == 64, p.len() <= 0xffff, seq_at(buf, 0, spec_u32_to_ne(ch)), buf[4] == 0x80u8 | spec_cmd_byte(c),
+        buf[5] == (p.len() / 256) as u8, buf[6] == (p.len() % 256) as u8,
+        seq_at(buf, 7, p.subrange(0, min_int(p.len() as int, 57))),
+        forall|i: int| 7 + min_int(p.len() as int, 57) <= i < 64 ==> buf[i] == 0,
+    ensures buf =~= init_pkt(ch, c, p),
+{
+    broadcast use axiom_ne_roundtrip;
+    let d = p.subrange(0, min_int(p.len() as int, 57));
+    let pre = spec_u32_to_ne(ch) + seq![0x80u8 | spec_cmd_byte(c)] + be16(p.len() as int) + d;
+    assert(pre.len() == 7 + d.len());
+    assert forall|i: int| 0 <= i < 64 implies buf[i] == init_pkt(ch, c, p)[i] by {
+        if i < 4 { assert(buf[0 + i] == spec_u32_to_ne(ch)[i]); }
+        else if i < 7 { }
+        else if i < 7 + d.len() { assert(buf[7 + (i - 7)] == d[i - 7]); }
+        else { }
+    }
+}
+pub proof fn lemma_cont_buf(buf: Seq<u8>, ch: u32, k: int, p: Seq<u8>)
+    requires buf.len() == 64, 0 <= k < 128, 57 + 59 * k < p.len(), seq_at(buf, 0, spec_u32_to_ne(ch)), buf[4] == k as u8,
+        seq_at(buf, 5, p.subrange(57 + 59 * k, min_int(p.len() as int, 57 + 59 * (k + 1)))),
+        forall|i: int| 5 + (min_int(p.len() as int, 57 + 59 * (k + 1)) - (57 + 59 * k)) <= i < 64 ==> buf[i] == 0,
+    ensures buf =~= cont_pkt(ch, k, p),
+{
+    broadcast use axiom_ne_roundtrip;
+    let d = p.subrange(57 + 59 * k, min_int(p.len() as int, 57 + 59 * (k + 1)));
+    let pre = spec_u32_to_ne(ch) + seq![k as u8] + d;
+    assert(pre.len() == 5 + d.len());
+    assert forall|i: int| 0 <= i < 64 implies buf[i] == cont_pkt(ch, k, p)[i] by {
+        if i < 4 { assert(buf[0 + i] == spec_u32_to_ne(ch)[i]); }
+        else if i < 5 { }
+        else if i < 5 + d.len() { assert(buf[5 + (i - 5)] == d[i - 5]); }
+        else { }
+    }
+}
+// one iteration of the sender's loop: after `encode`, the buffer is the i-th packet of the layout
+spec fn enc_post(hdr: PacketHeader, data: Seq<u8>, nb: Seq<u8>) -> bool {
+    match hdr {
+        PacketHeader::Initialization(h) => seq_at(nb, 0, spec_u32_to_ne(h.channel)) && nb[4] == 0x80u8 | spec_cmd_byte(h.command)
+            && nb[5] == (h.payload_len / 256) as u8 && nb[6] == (h.payload_len % 256) as u8 && seq_at(nb, 7, data),
+        PacketHeader::Continuation(c) => seq_at(nb, 0, spec_u32_to_ne(c.channel)) && nb[4] == c.seq && seq_at(nb, 5, data),
+    }
+}
+proof fn lemma_sent_packet(nb: Seq<u8>, hdr: PacketHeader, data: Seq<u8>, ch: u32, cmd: Command, pay: Seq<u8>, i: int)
+    requires pay.len() <= 7609, 0 <= i <= n_cont(pay.len() as int), nb.len() == 64,
+        i == 0 ==> hdr == PacketHeader::Initialization(InitHeader { channel: ch, command: cmd, payload_len: pay.len() as usize }) && data == pay.subrange(0, min_int(pay.len() as int, 57)),
+        i > 0 ==> hdr == PacketHeader::Continuation(ContHeader { channel: ch, seq: (i - 1) as u8 }) && data == pay.subrange(57 + 59 * (i - 1), min_int(pay.len() as int, 57 + 59 * i)),
+        i == n_cont(pay.len() as int) ==> (forall|j: int| (if i == 0 { 7int } else { 5int }) + data.len() <= j < 64 ==> nb[j] == 0),
+        enc_post(hdr, data, nb),
+    ensures nb == packets_of(ch, cmd, pay)[i],
+{
+    let len = pay.len() as int;
+    let n = n_cont(len);
+    assert(n > 0 ==> 59 * n >= len - 57 && 59 * (n - 1) < len - 57);
+    if i == 0 {
+        if n > 0 { assert(data.len() == 57); }
+        lemma_init_buf(nb, ch, cmd, pay);
+        assert(packets_of(ch, cmd, pay)[0] == init_pkt(ch, cmd, pay));
+    } else {
+        let k = i - 1;
+        assert(59 * k < len - 57);
+        assert(n <= 128) by(nonlinear_arith) requires len <= 7609, n == (len - 57 + 58) / 59, len > 57;
+        if i < n { assert(57 + 59 * (k + 1) < len); assert(data.len() == 59); }
+        lemma_cont_buf(nb, ch, k, pay);
+        assert(packets_of(ch, cmd, pay)[i] == cont_pkt(ch, k, pay));
+    }
+}
 //@ extract hid impl Message
-//@   external send to_packets
+//@   rule R23
+//@   rule R24
+//@   rule R25
+//@   rule R26
 impl Message {
     // representation invariant of a partially received message held in the channel table
     pub open spec fn wf(&self) -> bool { self.payload@.len() < self.payload_len && self.sequence <= 128 }
